@@ -399,6 +399,8 @@ class ExprMixin:
                     return False
                 if isinstance(x, Sym) and x.kind not in (None, "NoneType"):
                     return False
+                if isinstance(x, Term) and self.kind_of(x) in ("list", "dict", "tuple", "set", "str", "int", "float", "bool"):
+                    return False
                 return None
             if isinstance(y, Const) and isinstance(y.value, bool):
                 if isinstance(x, Const):
@@ -494,6 +496,7 @@ class ExprMixin:
 
     def getitem(self, recv: V, idx: V, node: Any) -> V:
         idx = self.resolve(idx)
+        recv = self._unwrap1(recv)
         if isinstance(recv, (ListV, TupleV)) and isinstance(idx, Const) and isinstance(idx.value, int):
             n = len(recv.items)
             if recv.concrete():
@@ -516,9 +519,12 @@ class ExprMixin:
                     return self.implicit_raise(KeyError, node, op="getitem", operands=(recv, idx))
         if isinstance(recv, (ClassV, Ext)) or (isinstance(recv, Term) and recv.op == "typing"):
             return Term("typing", (recv, idx), node=node)
-        if isinstance(recv, Term) and recv.op == "listcomp" and isinstance(recv.args[0], V):
+        base = recv
+        while isinstance(base, Term) and base.op in ("sorted", "list", "reversed") and base.args and isinstance(base.args[0], V):
+            base = base.args[0]        # an element of sorted(X) / list(X) is an element of X
+        if isinstance(base, Term) and base.op == "listcomp" and isinstance(base.args[0], V):
             self.partial("getitem", (IndexError,), node, operands=(recv, idx))
-            return recv.args[0]
+            return base.args[0]
         if isinstance(recv, SchemaV) or (isinstance(recv, Sym) and recv.kind == "Schema"):
             return self.call_dunder(recv, "__getitem__", [idx], node)
         k = self.kind_of(recv)
@@ -533,7 +539,9 @@ class ExprMixin:
             excs = (IndexError, KeyError, TypeError)
         if is_ell(recv) or is_nil(recv):
             return self.implicit_raise(TypeError, node, op="getitem", operands=(recv, idx))
-        res = Term("getitem", (recv, idx), kind="PathHolder" if k == "PathHolder" else None, node=node)
+        ek = self._elem_kind(recv) if k in ("list", "tuple", "sequence") and self.kind_of(idx) in ("int", None) \
+            and not isinstance(idx, Term) else None
+        res = Term("getitem", (recv, idx), kind="PathHolder" if k == "PathHolder" else ek, node=node)
         if excs:
             self.partial("getitem", excs, node, operands=(recv, idx))
         if k == "PathHolder":
@@ -692,10 +700,11 @@ class ExprMixin:
             it = self.eval(g.iter, inner)
             if gi == 0:
                 first_iter.append(it)
-            concrete = isinstance(it, (ListV, TupleV, SetV, DictV)) and it.concrete() or \
-                (isinstance(it, Const) and isinstance(it.value, (str, tuple, bytes))) or \
-                (isinstance(it, Term) and it.op in ("items", "enumerate") and it.args
-                 and isinstance(it.args[0], (ListV, TupleV, SetV, DictV)) and it.args[0].concrete())
+            concrete = self._enumerable(it)
+            if make == "dict" and len(gens) == 1:
+                # a dict comprehension is evaluated exactly like the loop `d = {}; for ..: d[k] = v` (bounded unrolling of a
+                # symbolic source), so that both spellings of a table transformer yield the same abstract table
+                concrete = True
             if concrete:
                 for item in self.iterate(it, node):
                     self.assign(g.target, item, inner, node)
@@ -724,6 +733,8 @@ class ExprMixin:
         src = self.eval(gens[0].iter, inner) if False else None
         kind = {"list": "list", "set": "set", "dict": "dict", "gen": "generator"}[make]
         extra = (TupleV(all_conds),) if all_conds else ()
+        if len(gens) > 1 and not extra:
+            extra = (TupleV([]),)      # several generators: the result is not one-for-one with the first source
         if make != "dict":
             t_ = Term(make + "comp", (elt, Term("src", (first_iter[0],))) + extra, kind=kind, node=node)
             t_.elem_kind = self.kind_of(elt) if isinstance(elt, V) else None  # type: ignore
@@ -731,6 +742,13 @@ class ExprMixin:
         if make == "dict":
             return Term("dictcomp", (elt[0], elt[1], Term("src", (first_iter[0],))) + extra, kind=kind, node=node)
         return Term(make + "comp", (elt, Term("src", (first_iter[0],))) + extra, kind=kind, node=node)
+
+    def _enumerable(self, it: V) -> bool:
+        """Can the members of `it` be listed one by one (as opposed to a symbolic source)?"""
+        return bool(isinstance(it, (ListV, TupleV, SetV, DictV)) and it.concrete() or
+                    (isinstance(it, Const) and isinstance(it.value, (str, tuple, bytes))) or
+                    (isinstance(it, Term) and it.op in ("items", "enumerate") and it.args
+                     and isinstance(it.args[0], (ListV, TupleV, SetV, DictV)) and it.args[0].concrete()))
 
     def _iter_key(self, gens: Any, inner: Frame) -> V:
         try:
@@ -788,7 +806,16 @@ class ExprMixin:
             return Sym(f"i@{it.key()}", "int", ("range", it))
         return self._tag_elem(Sym(f"elem@{it.key()}", self._elem_kind(it), ("elem", it, None)), it)
 
+    @staticmethod
+    def _unwrap1(x: V) -> V:
+        """[*<comprehension>] / {*<comprehension>} (what a summarised accumulation loop leaves) is that comprehension."""
+        if isinstance(x, (ListV, SetV)) and len(x.items) == 1 and isinstance(x.items[0], Spread) \
+                and isinstance(x.items[0].value, Term) and x.items[0].value.op == ("listcomp" if isinstance(x, ListV) else "setcomp"):
+            return x.items[0].value
+        return x
+
     def _elem_kind(self, src: V) -> Optional[str]:
+        src = self._unwrap1(src)
         k = self.kind_of(src)
         if k == "str":
             return "str"
@@ -796,6 +823,7 @@ class ExprMixin:
         return ek
 
     def iterate(self, it: V, node: Any) -> Iterator[V]:
+        it = self._unwrap1(it)
         if isinstance(it, (ListV, TupleV, SetV)) and it.concrete():
             yield from list(it.items)
             return
